@@ -238,6 +238,9 @@ func (c *Chain) BeginBlock(dt time.Duration, opts *BlockOpts) {
 // Ctx is the deliver-state context of the block in progress: writes through it are committed
 // with the block, exactly like the writes of a transaction.
 func (c *Chain) Ctx() sdk.Context {
+	if !c.InBlock {
+		return c.CommittedCtx()
+	}
 	return c.App.BaseApp.NewContext(false, c.Header)
 }
 
